@@ -286,3 +286,41 @@ where
 }
 pub type DZWhere = <ZWhere<u64> as DeserializeInner>::DeserType<'static>;
 pub type TZWhere = ZWhere<u64>;
+
+// ---- several where-predicates on the same field-typed parameter (all of them must be propagated)
+#[derive(Epserde, Debug, Clone, PartialEq)]
+pub struct SWhere2<T>
+where
+    T: PartialEq,
+    T: Clone + core::fmt::Debug,
+{
+    pub t: T,
+    pub n: u32,
+}
+pub type DSWhere2 = <SWhere2<Vec<u16>> as DeserializeInner>::DeserType<'static>;
+pub type SSWhere2 = <SWhere2<&'static [u16]> as SerializeInner>::SerType;
+#[derive(Epserde, Debug, Clone, PartialEq)]
+pub enum EWhere2<T: core::fmt::Debug>
+where
+    T: PartialEq,
+    T: Clone,
+{
+    A(T),
+    B,
+}
+pub type DEWhere2 = <EWhere2<String> as DeserializeInner>::DeserType<'static>;
+
+// ---- explicit discriminants: tags are declaration indices on all three sides, whatever the discriminants say
+#[derive(Epserde, Debug, Clone, Copy, PartialEq)]
+pub enum EDisc {
+    Low = 1,
+    Mid = 0,
+    High = 10,
+}
+#[derive(Epserde, Debug, Clone, PartialEq)]
+#[repr(u8)]
+pub enum EDiscPayload {
+    Ping = 3,
+    Data(Vec<u8>) = 7,
+    Pair { a: u16, b: u16 } = 1,
+}
